@@ -14,6 +14,7 @@ import (
 	"strings"
 	"time"
 
+	"github.com/form3tech-oss/f1/v2/internal/verifshim/vatomict"
 	"github.com/form3tech-oss/f1/v2/internal/verifshim/vctx"
 	"github.com/form3tech-oss/f1/v2/internal/verifshim/vtime"
 
@@ -35,14 +36,16 @@ const (
 	oSuccess = 's'
 	oFail    = 'f'
 	oDrop    = 'd'
+	oHelper  = 'h' // the body passes, but a helper goroutine it started marks the handle failed at some later point
 )
 
 type counts struct{ s, f, d uint64 }
 
 type world struct {
-	res   *run.Result
-	reg   *prometheus.Registry
-	truth counts
+	res    *run.Result
+	reg    *prometheus.Registry
+	truth  counts
+	either uint64 // iterations whose outcome depends on when the helper's Fail lands
 }
 
 var w *world
@@ -59,13 +62,18 @@ func component(scripts []string, snaps int) vrt.Scenario {
 		sc := &scenarios.Scenario{Name: "s"}
 		as := workers.NewActiveScenario(sc, m, stats, hlib.DiscardLogger(), hlib.DiscardLogrus())
 		per := make([]counts, len(scripts))
+		var helpers vsync.WaitGroup
 		sc.RunFn = func(t *f1testing.T) {
 			// iteration id = "<worker>.<index>"; the script says how it ends
 			parts := strings.SplitN(t.Iteration, ".", 2)
 			wi, _ := strconv.Atoi(parts[0])
 			ii, _ := strconv.Atoi(parts[1])
-			if scripts[wi][ii] == oFail {
+			switch scripts[wi][ii] {
+			case oFail:
 				t.Fail()
+			case oHelper:
+				helpers.Add(1)
+				vrt.GoNamed("helper", func() { defer helpers.Done(); t.Fail() })
 			}
 		}
 		var wg vsync.WaitGroup
@@ -88,6 +96,11 @@ func component(scripts []string, snaps int) vrt.Scenario {
 						per[i].f++
 						st.VerifT().Reset(fmt.Sprintf("%d.%d", i, j))
 						as.Run(st)
+					case oHelper:
+						cur.either++
+						st.VerifT().Reset(fmt.Sprintf("%d.%d", i, j))
+						as.Run(st)
+						helpers.Wait() // the next iteration on this handle starts clean
 					}
 				}
 			})
@@ -113,15 +126,27 @@ func component(scripts []string, snaps int) vrt.Scenario {
 		}
 		snap := w.res.Snapshot()
 		got := counts{snap.SuccessfulIterationDurations.Count, snap.FailedIterationDurations.Count, snap.DroppedIterationCount}
+		mc := gatherCounts(w.reg)
+		if w.either > 0 {
+			// a helper goroutine's late Fail makes the iteration's own outcome a matter of timing;
+			// what must hold: it is counted once, and the result and the metrics agree on how
+			if got.s+got.f != w.truth.s+w.truth.f+w.either || got.s < w.truth.s || got.f < w.truth.f || got.d != w.truth.d {
+				o.Fail("C01/final-counts", "helper:miscounted", fmt.Sprintf("final result counts %v with %d iterations of timing-dependent outcome on top of ground truth %v", got, w.either, w.truth))
+			}
+			if mc != got {
+				o.Fail("C01/metric-counts", "helper:metrics-disagree-with-result", fmt.Sprintf("exported iteration metric sample counts %v, final result counts %v: one iteration was classified twice, differently", mc, got))
+			}
+			return
+		}
 		if got != w.truth {
 			o.Fail("C01/final-counts", diffKey(got, w.truth), fmt.Sprintf("final result counts {success,fail,dropped}=%v, ground truth %v", got, w.truth))
 		}
-		mc := gatherCounts(w.reg)
 		if mc != w.truth {
 			o.Fail("C01/metric-counts", diffKey(mc, w.truth), fmt.Sprintf("exported iteration metric sample counts %v, ground truth %v", mc, w.truth))
 		}
 	}
-	return vrt.Scenario{Name: name, Body: body, Post: post, Memo: true, Horizon: time.Minute}
+	helper := strings.Contains(strings.Join(scripts, ""), string(rune(oHelper)))
+	return vrt.Scenario{Name: name, Body: body, Post: post, Memo: true, Horizon: time.Minute, Setup: func() { vatomict.Active = helper }}
 }
 
 func diffKey(got, want counts) string {
@@ -261,7 +286,7 @@ func wholeRun(mode, rate string, maxDur time.Duration, conc int, bodySleep time.
 		}
 		o.Sig = fmt.Sprintf("pass=%d fail=%d dropped=%d", want.s, want.f, md)
 	}
-	return vrt.Scenario{Name: name, Body: body, Post: post, Memo: true, Horizon: maxDur + 30*time.Second, MaxSteps: 60000, Delay: true}
+	return vrt.Scenario{Name: name, Body: body, Post: post, Memo: true, Horizon: maxDur + 30*time.Second, MaxSteps: 60000, Delay: true, Setup: func() { vatomict.Active = false }}
 }
 
 func scenariosFor(tier string) []vrt.Scenario {
@@ -300,6 +325,8 @@ func scenariosFor(tier string) []vrt.Scenario {
 		add(2, 1, "sf", "fs")
 		add(2, 2, "s", "s")
 		add(2, 1, "d", "s", "f")
+		add(2, 0, "h") // a helper goroutine fails the handle late: result and metrics must agree
+		add(2, 1, "sh", "f")
 		return out
 	}
 	add(1000, 1, "s")
@@ -315,6 +342,9 @@ func scenariosFor(tier string) []vrt.Scenario {
 	add(3, 1, "s", "f", "d")
 	add(3, 2, "ss", "ff")
 	add(2, 2, "sf", "fd", "ds")
+	add(1000, 0, "h")
+	add(3, 1, "hs", "f")
+	add(3, 1, "h", "h")
 	return out
 }
 
